@@ -100,6 +100,9 @@ type Config struct {
 	Leaders       int // 1 or 2
 	Redundancy    int // followers per partition (1 or 2)
 	QueryTimeout  time.Duration
+	// ManualHandlers: followers do not register query handlers with the leaders;
+	// the check registers exactly the handlers it wants (Follower.RealQuery).
+	ManualHandlers bool
 }
 
 type entry struct {
@@ -139,6 +142,8 @@ type Follower struct {
 	ffReady   chan struct{}
 	stopReg   chan struct{}
 	Up        bool
+	// RealQuery is the follower's own remote-query function (as handed to RegisterRemoteQueryHandler).
+	RealQuery planner.QueryClusterFN
 	regs      map[*zenodb.DB]int // handler registrations completed, per leader instance
 	uses      map[*zenodb.DB]int // handlers consumed by queries, per leader instance
 }
@@ -272,6 +277,12 @@ func (f *Follower) Open() error {
 		},
 		RegisterRemoteQueryHandler: func(db *zenodb.DB, partition int, realQuery planner.QueryClusterFN) {
 			stop := f.stopReg
+			f.mx.Lock()
+			f.RealQuery = realQuery
+			f.mx.Unlock()
+			if f.c.Cfg.ManualHandlers {
+				return
+			}
 			// A handler registered by an instance that has since gone away behaves
 			// like the dead connection it would be in a real deployment: the leader
 			// gets a retriable error (rpc server: "Unable to send query") and moves on
@@ -665,6 +676,14 @@ func (c *Cluster) QueryLeader(leader int, sql string, includeMemStore bool) (*db
 		}
 		time.Sleep(500 * time.Microsecond)
 	}
+}
+
+// DrainHandlers removes every query handler currently registered with the
+// leader for the partition (each is invoked once with a cancelled, empty query
+// context by asking the leader for it via a throw-away registration channel is
+// not possible from outside, so the leader's own accessor is used).
+func (c *Cluster) DrainHandlers(leader, partition int) {
+	zenodb.VerifDrainQueryHandlers(c.Leaders[leader].Z, partition)
 }
 
 // QueryLeaderOnce runs a query on a leader without retrying.
